@@ -170,7 +170,11 @@ class SrcInfo:
             if mm and not header.startswith('for<'):
                 trait, self_ty = mm.group(1).strip(), mm.group(2).strip()
             body_end = match_bracket(src, j) if j < len(src) else j
-            self.impls[(rel, start_line)] = dict(trait=trait, self_ty=self_ty, generics=generics, body=(j, body_end), file=rel)
+            assoc = {}
+            if trait is not None:
+                for am in re.finditer(r'\btype\s+(\w+)\s*(?:<[^=]*>)?\s*=\s*([^;]+);', src[j:body_end]):
+                    assoc[am.group(1)] = ' '.join(am.group(2).split())
+            self.impls[(rel, start_line)] = dict(trait=trait, self_ty=self_ty, generics=generics, body=(j, body_end), file=rel, assoc=assoc)
         # fns
         for m in re.finditer(r'\bfn\s+([A-Za-z_]\w*)\s*(<)?', src):
             name = m.group(1); gens = []
